@@ -3,7 +3,7 @@ from ..env import World
 from ..sched import Scheduler
 from ..dilation_work import DilatedPair, ScriptDriver, stream_check, HalfRecProto
 from ..mailbox_work import trace_digest
-from ..monitors import MON
+from ..monitors import MON, state_of
 
 import wormhole._dilation.subchannel as sc_mod
 
@@ -17,8 +17,8 @@ RULE = ("two real dilated wormholes; random interleavings of listener_for(name).
         "either side is recorded (its id). Non-trivial = at least one subchannel was opened and closed; "
         "distinct = scheduler decision traces.")
 ASSUMPTIONS = ["Noise stand-in", "bounded progress: 300 virtual seconds"]
-FLOORS = {"quick": {"subchannels": 500, "closes": 200, "writes_after_close": 100, "writes_right_after_close": 300, "undeclared_opens": 40, "late_listens": 40},
-          "thorough": {"subchannels": 15000, "closes": 6000, "writes_after_close": 3000, "writes_right_after_close": 9000, "undeclared_opens": 1200, "late_listens": 1200}}
+FLOORS = {"quick": {"subchannels": 500, "closes": 200, "writes_after_close": 100, "writes_right_after_close": 300, "half_closed_subchannels_at_wormhole_close": 60, "undeclared_opens": 40, "late_listens": 40},
+          "thorough": {"subchannels": 15000, "closes": 6000, "writes_after_close": 3000, "writes_right_after_close": 9000, "half_closed_subchannels_at_wormhole_close": 2000, "undeclared_opens": 1200, "late_listens": 1200}}
 NAMES = ["p0", "p1", "ünï-proto", "x" * 40]
 
 _created = []
@@ -126,7 +126,10 @@ def run_case(spec):
     wac_errors = []
     all_protos = drv.protos("A") + drv.protos("B")
     for p in all_protos:
-        if drv.is_open(p) and rng.random() < 0.8:
+        # (a half-closeable protocol whose peer has closed its writing side often keeps its own side open until the
+        #  wormhole goes away)
+        keep = 0.6 if isinstance(p, HalfRecProto) else 0.2
+        if drv.is_open(p) and rng.random() >= keep:
             drv.close(p)
     sch.drain(300.0, 15000, until=lambda: False)
     for p in all_protos:
@@ -249,12 +252,38 @@ def run_case(spec):
     for r in drv.opens:
         if r["failure"]:
             viol.append({"key": "C13/connect-failed/" + r["failure"], "msg": str(r), "witness": wit()})
+    if spec["half"] and not spec["expected"] and dp.both_connected():
+        # one more half-closeable pair, opened now: the opener closes its writing half, the acceptor keeps its own
+        # side open until the wormholes are closed
+        saved_half, drv.half, drv.stop = drv.half, 1.0, False
+        drv.listen("A", "hc-late")
+        rec_ = drv.open("B", "hc-late")
+        sch.drain(30.0, 3000, until=lambda: rec_["proto"] is not None or rec_["failure"] is not None)
+        if rec_["proto"] is not None:
+            drv.close(rec_["proto"])
+        drv.half, drv.stop = saved_half, True
+        sch.drain(30.0, 3000, until=lambda: False)
+        all_protos = drv.protos("A") + drv.protos("B")
+    # half-closeable pairs that are still fully open: one side now closes its writing half, the other keeps its own open
+    for p_ in all_protos:
+        if isinstance(p_, HalfRecProto) and getattr(p_, "transport", None) is not None and state_of(p_.transport) == "open_half" and rng.random() < 0.6:
+            drv.close(p_)
+    sch.drain(30.0, 3000, until=lambda: False)
+    half_open_at_close_before = sum(1 for p_ in all_protos if isinstance(p_, HalfRecProto) and getattr(p_, "transport", None) is not None
+                                    and state_of(p_.transport) in ("read_closed", "write_closed", "open_half"))
     dp.a.close()
     dp.b.close()
     sch.drain(120.0, 8000, until=lambda: dp.a.closed and dp.b.closed)
     sch.drain(5.0, 2000)
     # the wormholes are closed: no subchannel can carry anything any more, so every protocol must have been told
     still_open = 0
+    half_open_at_close = sum(1 for p_ in all_protos if isinstance(p_, HalfRecProto) and getattr(p_, "transport", None) is not None
+                             and state_of(p_.transport) in ("read_closed", "write_closed", "open_half"))
+    if not (dp.a.closed and dp.b.closed):
+        viol.append({"key": "C13/wormhole-close-never-completes/%s-%s" % (dp.mstate("A"), dp.mstate("B")),
+                     "msg": "close() of the dilated wormholes did not complete (A closed=%s, B closed=%s); subchannel states: %s" % (
+                         dp.a.closed, dp.b.closed, sorted({state_of(p_.transport) for p_ in all_protos if getattr(p_, "transport", None) is not None})[:6]),
+                     "witness": wit()})
     if dp.a.closed and dp.b.closed:
         for p_ in all_protos:
             kinds_ = [e[0] for e in p_.events]
@@ -268,7 +297,7 @@ def run_case(spec):
     nontrivial = trace_digest(sch) if (nsub and closes) else None
     benign = {"CloseForMissingSubchannelError", "DataForMissingSubchannelError"}
     return {"violations": viol, "nontrivial": nontrivial,
-            "counters": {"subchannels": nsub, "closes": closes, "writes_after_close": writes_after_close, "writes_right_after_close": len(early_wac), "unencodable_names_tried": bad_name["tried"], "subchannels_open_at_wormhole_close": still_open, "calls_from_inside_protocol_callbacks": drv.reactions_done, "errors_escaping_connectionLost": drv.escaped, "false_factories": drv.falsy_factories, "undeclared_opens": undeclared,
+            "counters": {"subchannels": nsub, "closes": closes, "writes_after_close": writes_after_close, "writes_right_after_close": len(early_wac), "unencodable_names_tried": bad_name["tried"], "subchannels_open_at_wormhole_close": still_open, "half_closed_subchannels_at_wormhole_close": half_open_at_close_before, "calls_from_inside_protocol_callbacks": drv.reactions_done, "errors_escaping_connectionLost": drv.escaped, "false_factories": drv.falsy_factories, "undeclared_opens": undeclared,
                          "late_listens": late_listens, "half_protocols": sum(isinstance(p, HalfRecProto) for p in all_protos),
                          "opens": len(drv.opens), "notrans_seen": len(MON.notrans)},
             "sets": {"write_after_close_errors": sorted({e for (_, e, _) in wac_errors if e} | {e[1] for e in early_wac if e[1]}),
